@@ -25,10 +25,19 @@ pub enum NonDisk {
 
 #[derive(Clone, Debug, Serialize, Deserialize)]
 pub enum Case {
-    Planar { spec: MeshSpec, t: Iso3D },
-    Curved { spec: MeshSpec, t: Iso3D },
+    Planar { spec: MeshSpec, t: Iso3D, #[serde(default = "one")] unit: f64 },
+    Curved { spec: MeshSpec, t: Iso3D, #[serde(default = "one")] unit: f64 },
     Reject { kind: NonDisk, spec: MeshSpec },
     Uv { spec: MeshSpec, affine: [f64; 6], samples: Vec<(u16, f64, f64, f64)> },
+}
+
+fn one() -> f64 {
+    1.0
+}
+
+/// length unit of the whole mesh: half the cases as generated, half anywhere from 1e-7 to 1e4
+fn unit() -> BoxedStrategy<f64> {
+    prop_oneof![1 => Just(1.0), 1 => logu(-7.0, 4.0)].boxed()
 }
 
 fn planar_kind(nmax: usize) -> BoxedStrategy<MeshKind> {
@@ -58,7 +67,7 @@ impl Property for C20 {
     type Case = Case;
     const ID: &'static str = "C20";
     fn rule() -> &'static str {
-        "families: planar triangulated disks built in 2D by the harness (jittered grids 3x3..16x16 quick / 40x40 thorough with random diagonals, strips of aspect up to 1:30, L-shaped non-convex outlines, fans) with shuffled vertex numbering and face order, all-CCW or all-CW winding, lifted by an arbitrary isometry; curved disks (height fields, domes, creases, cones) for the invariance clause; non-disks (closed solids, tubes with two boundary loops, two components, a fin making an edge shared by three faces, bow-tie of two disks, grid with an interior hole) for the rejection clause; meshes carrying a UV map that is an affine image of their planar layout with random (face, barycentric, height) samples. Oracle: edge lengths and triangle areas preserved, one orientation sign, result finite; flatten(T mesh) equals flatten(mesh) up to a planar rigid motion; Err for non-disks; UV round trip. Non-trivial: at least one interior vertex, shuffled numbering and a pose that is not axis-aligned. Distinct = distinct canonical JSON."
+        "families: planar triangulated disks built in 2D by the harness (jittered grids 3x3..16x16 quick / 40x40 thorough with random diagonals, strips of aspect up to 1:30, L-shaped non-convex outlines, fans) with shuffled vertex numbering and face order, all-CCW or all-CW winding, lifted by an arbitrary isometry, in the generated length unit (cells 0.5..4) or scaled as a whole by 1e-7..1e4; curved disks (height fields, domes, creases, cones) for the invariance clause; non-disks (closed solids, tubes with two boundary loops, two components, a fin making an edge shared by three faces, bow-tie of two disks, grid with an interior hole) for the rejection clause; meshes carrying a UV map that is an affine image of their planar layout with random (face, barycentric, height) samples. Oracle: edge lengths and triangle areas preserved, one orientation sign, result finite; flatten(T mesh) equals flatten(mesh) up to a planar rigid motion; Err for non-disks; UV round trip. Non-trivial: at least one interior vertex, shuffled numbering and a pose that is not axis-aligned. Distinct = distinct canonical JSON."
     }
     fn cases(t: Tier) -> u32 {
         t.pick(50_000, 200_000)
@@ -67,7 +76,7 @@ impl Property for C20 {
         Some(Duration::from_secs(30))
     }
     fn expected_labels() -> Vec<&'static str> {
-        vec!["planar", "planar_cw", "planar_ccw", "curved", "reject_closed", "reject_two_loops", "reject_two_components", "reject_nonmanifold", "reject_bowtie", "reject_hole", "uv", "nonconvex"]
+        vec!["planar", "planar_cw", "planar_ccw", "curved", "reject_closed", "reject_two_loops", "reject_two_components", "reject_nonmanifold", "reject_bowtie", "reject_hole", "uv", "nonconvex", "unit_below_1e-4"]
     }
     fn strategy(t: Tier) -> BoxedStrategy<Case> {
         let nmax = t.pick(16, 40);
@@ -80,8 +89,8 @@ impl Property for C20 {
             disk_spec((5usize..9, 5usize..9, unif(1.0, 3.0), unif(1.0, 3.0), any::<u64>()).prop_map(|(nx, ny, sx, sy, diag)| MeshKind::Grid { nx, ny, sx, sy, jitter: 0.2, diag, height: Height::Flat }).boxed()).prop_map(|spec| Case::Reject { kind: NonDisk::GridWithHole, spec }),
         ];
         prop_oneof![
-            5 => (disk_spec(planar_kind(nmax)), iso3(100.0)).prop_map(|(spec, t)| Case::Planar { spec, t }),
-            2 => (disk_spec(curved_kind(nmax.min(20))), iso3(100.0)).prop_map(|(spec, t)| Case::Curved { spec, t }),
+            5 => (disk_spec(planar_kind(nmax)), iso3(100.0), unit()).prop_map(|(spec, t, unit)| Case::Planar { spec, t, unit }),
+            2 => (disk_spec(curved_kind(nmax.min(20))), iso3(100.0), unit()).prop_map(|(spec, t, unit)| Case::Curved { spec, t, unit }),
             2 => reject,
             2 => (disk_spec(planar_kind(8)), [unif(0.5, 2.0), unif(-0.5, 0.5), unif(-0.5, 0.5), unif(0.5, 2.0), unif(-5.0, 5.0), unif(-5.0, 5.0)], prop::collection::vec((any::<u16>(), unif(0.05, 0.9), unif(0.05, 0.9), prop_oneof![Just(0.0), unif(-0.05, 0.05)]), 1..12)).prop_map(|(spec, affine, samples)| Case::Uv { spec, affine, samples }),
         ]
@@ -89,8 +98,8 @@ impl Property for C20 {
     }
     fn check(case: &Case) -> Verdict {
         match case {
-            Case::Planar { spec, t } => planar(spec, t),
-            Case::Curved { spec, t } => curved(spec, t),
+            Case::Planar { spec, t, unit } => planar(spec, t, *unit),
+            Case::Curved { spec, t, unit } => curved(spec, t, *unit),
             Case::Reject { kind, spec } => reject(kind, spec),
             Case::Uv { spec, affine, samples } => uv(spec, affine, samples),
         }
@@ -138,10 +147,15 @@ fn rel_tolerance(soup: &crate::oracle::Soup) -> f64 {
     (1e-6 * m * (soup.v.len() as f64 / 100.0).max(1.0)).clamp(1e-5, 1e-3)
 }
 
-fn planar(spec: &MeshSpec, t: &Iso3D) -> Verdict {
+fn planar(spec: &MeshSpec, t: &Iso3D, unit: f64) -> Verdict {
     let mut cx = Ctx::new();
     cx.label("planar");
-    let Some(bm) = spec.build() else { return Verdict::Discard("empty mesh") };
+    let Some(mut bm) = spec.build() else { return Verdict::Discard("empty mesh") };
+    let unscaled = bm.v.clone();
+    for p in bm.v.iter_mut() {
+        *p = Point3::from(p.coords * unit);
+    }
+    cx.label_if(unit < 1e-4, "unit_below_1e-4");
     if !(bm.topo.manifold && bm.topo.consistent && bm.topo.boundary_loops == 1 && bm.topo.components == 1 && !bm.topo.vertex_only_contact) {
         return Verdict::Discard("generator did not produce a disk");
     }
@@ -156,7 +170,7 @@ fn planar(spec: &MeshSpec, t: &Iso3D) -> Verdict {
     // the planar input itself must be an embedded (unfolded) triangulation
     {
         let inv = spec.pose.to_iso().inverse();
-        let flat: Vec<Point2> = bm.v.iter().map(|p| { let q = inv * p; Point2::new(q.x, q.y) }).collect();
+        let flat: Vec<Point2> = unscaled.iter().map(|p| { let q = inv * p; Point2::new(q.x, q.y) }).collect();
         let signs: Vec<bool> = bm.f.iter().map(|t| area2(&flat[t[0] as usize], &flat[t[1] as usize], &flat[t[2] as usize]) > 0.0).collect();
         if signs.iter().any(|s| *s != signs[0]) {
             return Verdict::Discard("generated planar input is folded");
@@ -202,13 +216,14 @@ fn planar(spec: &MeshSpec, t: &Iso3D) -> Verdict {
     cx.label_if(matches!(spec.kind, MeshKind::LGrid { .. }), "nonconvex");
     // hence the shape is the original up to a rigid motion: compare with the planar coordinates of the lifted mesh
     let inv = spec.pose.to_iso().inverse();
-    let flat: Vec<Point2> = bm.v.iter().map(|p| { let q = inv * p; Point2::new(q.x, q.y) }).collect();
+    let flat: Vec<Point2> = unscaled.iter().map(|p| { let q = inv * p; Point2::new(q.x * unit, q.y * unit) }).collect();
     let flat_m: Vec<Point2> = flat.iter().map(|p| Point2::new(-p.x, p.y)).collect();
     // seen from the side of the normals: the local x-y layout for counter-clockwise faces, its mirror image for clockwise
     let r = if spec.flip_all { rigid_residual(&flat_m, &uv) } else { rigid_residual(&flat, &uv) };
     ensure!(r <= rel * size, "C20/flatten/not_congruent", "after the best planar rigid fit the flattening is {r:e} away from the original planar shape (size {size:e})");
     // invariance under a rigid motion of the input, and across repeated runs
-    let iso = t.to_iso();
+    let mut iso = t.to_iso();
+    iso.translation.vector *= unit;
     let moved: Vec<Point3> = bm.v.iter().map(|p| iso * p).collect();
     match flatten(&moved, &bm.f) {
         Ok(Ok(uv2)) => {
@@ -228,10 +243,14 @@ fn planar(spec: &MeshSpec, t: &Iso3D) -> Verdict {
     cx.pass()
 }
 
-fn curved(spec: &MeshSpec, t: &Iso3D) -> Verdict {
+fn curved(spec: &MeshSpec, t: &Iso3D, unit: f64) -> Verdict {
     let mut cx = Ctx::new();
     cx.label("curved");
-    let Some(bm) = spec.build() else { return Verdict::Discard("empty mesh") };
+    let Some(mut bm) = spec.build() else { return Verdict::Discard("empty mesh") };
+    for p in bm.v.iter_mut() {
+        *p = Point3::from(p.coords * unit);
+    }
+    cx.label_if(unit < 1e-4, "unit_below_1e-4");
     if !(bm.topo.manifold && bm.topo.consistent && bm.topo.boundary_loops == 1 && bm.topo.components == 1 && !bm.topo.vertex_only_contact) {
         return Verdict::Discard("generator did not produce a disk");
     }
@@ -250,7 +269,8 @@ fn curved(spec: &MeshSpec, t: &Iso3D) -> Verdict {
         Err(m) => return Verdict::fail("C20/flatten/panic", m),
     };
     ensure!(uv.len() == bm.v.len() && uv.iter().all(|p| p.x.is_finite() && p.y.is_finite()), "C20/flatten/non_finite", "count or finiteness");
-    let iso = t.to_iso();
+    let mut iso = t.to_iso();
+    iso.translation.vector *= unit;
     let moved: Vec<Point3> = bm.v.iter().map(|p| iso * p).collect();
     match flatten(&moved, &bm.f) {
         Ok(Ok(uv2)) => {
